@@ -110,9 +110,12 @@ def write_hdf5(obj, filename, compression="gzip", compression_opts=4):
                     eminus.occupations.Occupations,
                 ),
             ):
+                fp.create_group(f"{path}{key}", track_order=True)
                 write_hdf5_recursively(fp, f"{path}{key}/", value.__dict__)
             # Dictionaries are not storable, create a group for every dictionary (and eminus object)
+            # Track the creation order, the order of dictionary entries can matter (e.g., for SCF.opt)
             elif isinstance(value, dict):
+                fp.create_group(f"{path}{key}", track_order=True)
                 write_hdf5_recursively(fp, f"{path}{key}/", value)
             # None values can not be stored in HDF5 files, set an attribute for them
             # The logger class is not serializable, just set it to None as well
@@ -151,5 +154,5 @@ def write_hdf5(obj, filename, compression="gzip", compression_opts=4):
             else:
                 fp.create_dataset(f"{path}{key}", data=value)
 
-    with File(filename, "w") as fp:
+    with File(filename, "w", track_order=True) as fp:
         write_hdf5_recursively(fp, "/", obj.__dict__)
